@@ -438,7 +438,14 @@ def _set_allocations_for_consumer(req, schema):
         # NOTE(jaypipes): This will only occur 1.28+. The JSONSchema will
         # prevent an empty allocations object from being passed when there is
         # no consumer generation, so this is safe to do.
-        allocations = alloc_obj.get_all_by_consumer_id(context, consumer_uuid)
+        try:
+            allocations = alloc_obj.get_all_by_consumer_id(
+                context, consumer_uuid)
+        except Exception:
+            # Do not leave an auto-created consumer behind a failed request.
+            with excutils.save_and_reraise_exception():
+                if created_new_consumer:
+                    delete_consumers([consumer])
         for allocation in allocations:
             allocation.used = 0
             # Guard the write with the consumer (and generation) that
